@@ -136,7 +136,15 @@ pub fn c03(tier: Tier) -> Vec<Case> {
         seq(vec![opt(field("p", "X")), star(seq(vec![lit(","), bfield("p", "X")]))]),
     ];
     for body in rec_bodies {
-        for extra in [vec![], vec![Directive::Position], vec![Directive::Memoize], vec![Directive::Leftrec]] {
+        for extra in [
+            vec![],
+            vec![Directive::Position],
+            vec![Directive::Memoize],
+            vec![Directive::Leftrec],
+            // redundant but legal combinations of the caching directives
+            vec![Directive::Memoize, Directive::Leftrec],
+            vec![Directive::Leftrec, Directive::Position, Directive::Memoize],
+        ] {
             let e_rule = Rule::normal("E", vec![], choice(vec![bover("R"), over("X")]));
             let mut l = vec![Rule::normal("R", extra.clone(), body.clone()), e_rule];
             l.extend(leaves.iter().cloned());
